@@ -15,6 +15,7 @@ import (
 	"github.com/apmckinlay/gsuneido/db19"
 	qry "github.com/apmckinlay/gsuneido/dbms/query"
 	"pgregory.net/rapid"
+	"verifharness/internal/gen"
 )
 
 func init() {
@@ -282,7 +283,7 @@ func drawPlan(t *rapid.T, pi parsedT, random bool) planT {
 	if pi.sorted || len(pi.indexes) == 0 || isEmptyKey(pi.indexes) {
 		return p
 	}
-	use := pickOf(t, "use", []string{"none", "order", "group", "unique"})
+	use := []string{"none", "order", "group", "unique"}[gen.Weighted(t, "use", []int{1, 2, 2, 2})]
 	pickIx := func(list [][]string) []string {
 		return append([]string(nil), list[rng(t, "ix", 0, len(list)-1)]...)
 	}
